@@ -141,7 +141,11 @@ def build_inputs(rng, tier):
         main = rng.choice([lambda: world_case(rng, "single"), lambda: world_case(rng, "joint"),
                            lambda: dom14_case(rng, rng.choice(["single", "joint"]), repeats=False)])()
         noise = [dom14_case(rng, rng.choice(["single", "joint"]), repeats=(k % 5 != 4)) for _ in range(rng.randint(1, 2))]
-        inputs.append(dict(main, kind="after-noise:" + main["kind"], noise=noise, main=main))
+        if k % 2 == 0:
+            # every file of the job goes to the same path again and again (a scratch file re-exported); the earlier
+            # contents are other worlds as often as the fixed domain
+            noise.append(world_case(rng, rng.choice(["single", "joint"])))
+        inputs.append(dict(main, kind="after-noise:" + main["kind"], noise=noise, main=main, same_paths=(k % 2 == 0)))
     # the empty plan
     e = dom14_case(rng, "single", repeats=False)
     e.update(kind="empty-plan", plan=[])
@@ -153,7 +157,8 @@ def build_inputs(rng, tier):
 
 def job_of(inp):
     if "noise" in inp:
-        return {"op": "c10.after_noise", "noise": [job_of(n) for n in inp["noise"]], "main": job_of(inp["main"])}
+        return {"op": "c10.after_noise", "noise": [job_of(n) for n in inp["noise"]], "main": job_of(inp["main"]),
+                "same_paths": bool(inp.get("same_paths"))}
     if inp["kind"] == "shipped":
         s = inp["shipped"]
         agents = s["agents"]
